@@ -193,12 +193,16 @@ class FuncTranslator:
         self.pending = []
         self.guards = []
         self.no_div = 0
+        self.unresolved = set()  # `x = []` whose element type is not known (yet)
+        self.inline = 0          # depth of inlined multi-statement function bodies
         self.ob_count = 0        # number of obligations registered (0: the function cannot violate any)
         self.binds = []          # (name, call) of calls of translated functions that may raise, in evaluation order
         self.list_hints = {}     # element type of `x = []`, learnt from the first x.append(e)
 
     def take(self):
         """the obligations (and calls of functions that may raise) registered by the expression just translated"""
+        if self.inline:         # inside an inlined function body: the enclosing statement collects
+            return Taken("", [])
         c, self.pending = self.pending, []
         b, self.binds = self.binds, []
         self.ob_count += len(c)
@@ -338,6 +342,12 @@ class FuncTranslator:
 
     def e_BinOp(self, n, env):
         a, b = self.expr(n.left, env), self.expr(n.right, env)
+        if isinstance(n.op, ast.Mult) and ((isinstance(a.ty, tuple) and a.ty[0] == "List" and b.ty == Q)
+                                           or (isinstance(b.ty, tuple) and b.ty[0] == "List" and a.ty == Q)):
+            l, k = (a, b) if a.ty != Q else (b, a)       # [v] * n: the list repeated n times
+            if l.ty[1] is None:
+                raise Unsupported("repetition of an empty list literal")
+            return V("(py_repeat %s %s)" % (l.term, k.term), l.ty)
         if isinstance(a.ty, tuple) and a.ty[0] == "List" and isinstance(n.op, ast.Add):
             if b.ty != a.ty:
                 raise Unsupported("list + of different element types")
@@ -434,10 +444,9 @@ class FuncTranslator:
             a, b = self.num(a), self.num(b)
         return V("(if %s then %s else %s)" % (c.term, a.term, b.term), a.ty)
 
-    def comprehension(self, n, env):
-        if len(n.generators) != 1:
-            raise Unsupported("comprehension with several `for`")
-        g = n.generators[0]
+    def comprehension(self, n, env, idx=0):
+        """the idx-th `for` clause (with its `if`s) of a comprehension: (bound name, environment, source term, type)"""
+        g = n.generators[idx]
         if g.is_async:
             raise Unsupported("comprehension target outside the fragment")
         it = self.to_list(self.expr(g.iter, env))
@@ -464,16 +473,22 @@ class FuncTranslator:
             self.no_div -= 1
         return x, env2, src, it.ty[1]
 
-    def e_ListComp(self, n, env):
-        x, env2, src, et = self.comprehension(n, env)
-        if isinstance(n.elt, ast.Name) and n.elt.id == x:      # [p for p in xs if c]
-            return V(src, List(et))
+    def e_ListComp(self, n, env, idx=0):
+        """[e for x in xs if c for y in ys if d ...]: map over the last clause, flat_map over the outer ones"""
+        x, env2, src, et = self.comprehension(n, env, idx)
         n0 = len(self.pending)
-        e = self.expr(n.elt, env2)
+        if idx + 1 < len(n.generators):
+            inner = self.e_ListComp(n, env2, idx + 1)
+            term, ty = "(flat_map (fun %s => %s) %s)" % (gname(x), inner.term, src), inner.ty
+        elif isinstance(n.elt, ast.Name) and n.elt.id == x:      # [p for p in xs if c]
+            term, ty = src, List(et)
+        else:
+            e = self.expr(n.elt, env2)
+            term, ty = "(map (fun %s => %s) %s)" % (gname(x), e.term, src), List(e.ty)
         new, self.pending = self.pending[n0:], self.pending[:n0]
         if new:      # an obligation of the element (division, min of a possibly empty sequence): for every element
             self.pending.append("(forallb (fun %s => %s) %s)" % (gname(x), " && ".join(new), src))
-        return V("(map (fun %s => %s) %s)" % (gname(x), e.term, src), List(e.ty))
+        return V(term, ty)
 
     def e_GeneratorExp(self, n, env):
         v = self.e_ListComp(n, env)
@@ -598,11 +613,37 @@ class FuncTranslator:
         for p, a in zip(m.params, args):
             env2[p] = a
         body = m.body
-        if isinstance(body, list):        # nested def: docstring* then a single `return e`
+        if isinstance(body, list):        # a def: docstring* then a single `return e`, or a small pure block
             body = [s for s in body if not _is_doc(s) and not isinstance(s, ast.Pass)]
-            if len(body) != 1 or not isinstance(body[0], ast.Return) or body[0].value is None:
-                raise Unsupported("local function whose body is not a single return")
-            body = body[0].value
+            if len(body) == 1 and isinstance(body[0], ast.Return) and body[0].value is not None:
+                return self.expr(body[0].value, env2)
+            # several statements (if / return / local assignments): translated as a block whose `return`s give
+            # the value; its obligations are handed to the statement that contains the call (unguarded)
+            for x in _walk_no_defs(body):
+                if isinstance(x, (ast.For, ast.While, ast.Raise, ast.Yield, ast.Break, ast.Continue)):
+                    raise Unsupported("local function with a loop / raise used as a value")
+            rets = []
+
+            def r(v):
+                rets.append(v)
+                return v.term
+
+            def nofall(e):
+                raise Unsupported("local function that can end without return")
+
+            self.inline += 1
+            try:
+                term = self.block(body, env2, Ctx(r, nofall, rtype="_"))
+            finally:
+                self.inline -= 1
+            if not rets:
+                raise Unsupported("local function without return")
+            ty = rets[0].ty
+            if any(v.ty != ty for v in rets):
+                if all(v.ty in (Q, B) for v in rets):
+                    raise Unsupported("local function returning numbers and truth values")
+                raise Unsupported("local function returning values of different types")
+            return V("(%s)" % term, ty)
         return self.expr(body, env2)
 
     def apply_fun(self, f, args):
@@ -995,6 +1036,8 @@ class FuncTranslator:
             return body_of(env2)
         if v.ty == List(None) and name in self.list_hints:
             v = V("(@nil %s)" % gty(self.list_hints[name]), List(self.list_hints[name]))
+        elif v.ty == List(None):
+            self.unresolved.add(name)
         env2[name] = V(gname(name), v.ty)
         return "let %s := %s in\n  %s" % (gname(name), v.term, body_of(env2))
 
@@ -1017,6 +1060,19 @@ class FuncTranslator:
                 and env[s.value.func.value.value.id].ty == ERRORS:
             # errors[key].append(message): the message is not evaluated, the collector becomes non-empty
             return self.bind(env, s.value.func.value.value.id, V("true", ERRORS), nxt)
+        if isinstance(s, ast.Expr) and isinstance(s.value, ast.Call) and isinstance(s.value.func, ast.Attribute) \
+                and s.value.func.attr == "extend" and isinstance(s.value.func.value, ast.Name) \
+                and len(s.value.args) == 1 and not s.value.keywords:
+            x = s.value.func.value.id            # xs.extend(ys)  ==  xs = xs + list(ys)
+            if x not in env or not (isinstance(env[x].ty, tuple) and env[x].ty[0] == "List"):
+                raise Unsupported("extend on something that is not a local list")
+            e = self.to_list(self.expr(s.value.args[0], env))
+            c = self.take()
+            if env[x].ty[1] is None:
+                self.list_hints[x] = e.ty[1]
+            elif env[x].ty != e.ty:
+                raise Unsupported("extend with elements of another type")
+            return self.wrap(c, self.bind(env, x, V("(%s ++ %s)" % (env[x].term, e.term), e.ty), nxt), ctx)
         if isinstance(s, ast.Expr) and isinstance(s.value, ast.Yield):
             # a generator function: the values yielded so far are the hidden list `$yield`
             if s.value.value is None or "$yield" not in env:
@@ -1157,7 +1213,7 @@ class FuncTranslator:
                         out.add(x.id)
             if isinstance(n, ast.Yield):
                 out.add("$yield")
-            if isinstance(n, ast.Call) and isinstance(n.func, ast.Attribute) and n.func.attr == "append":
+            if isinstance(n, ast.Call) and isinstance(n.func, ast.Attribute) and n.func.attr in ("append", "extend"):
                 v = n.func.value
                 if isinstance(v, ast.Subscript):
                     v = v.value
@@ -1237,7 +1293,7 @@ class FuncTranslator:
                             assigned.add(x.id)
             if isinstance(n, ast.Yield):
                 assigned.add("$yield")
-            if isinstance(n, ast.Call) and isinstance(n.func, ast.Attribute) and n.func.attr == "append" \
+            if isinstance(n, ast.Call) and isinstance(n.func, ast.Attribute) and n.func.attr in ("append", "extend") \
                     and isinstance(n.func.value, ast.Name):
                 assigned.add(n.func.value.id)
             if isinstance(n, ast.Call) and isinstance(n.func, ast.Attribute) and n.func.attr == "append" \
@@ -1249,6 +1305,15 @@ class FuncTranslator:
         has_ret = any(isinstance(n, (ast.Return, ast.Raise)) for n in _walk_no_defs(s.body))
         has_brk = any(isinstance(n, ast.Break) for n in _walk_no_defs(s.body, stop_loops=True))
         if not (svars or has_ret or has_brk):
+            # a loop that changes nothing can be dropped -- but only if its body IS inside the fragment (a body with
+            # an effect the translator does not know, x.extend(..), d[k] = .., must not vanish silently)
+            env_b0 = dict(env)
+            for tn in tnames:
+                env_b0[tn] = V(gname(tn), et if len(tnames) == 1 else et[1][tnames.index(tn)])
+            save0 = (self.counter, list(self.pending), list(self.binds), self.ob_count)
+            self.block(s.body, env_b0, Ctx(lambda v: "_", lambda e: "_", brk=lambda e: "_", cont=lambda e: "_",
+                                           rtype="_", fail=lambda: "_"))
+            self.counter, self.pending, self.binds, self.ob_count = save0
             return self.wrap(c_it, nxt(env), ctx)
         k = self._fresh()
         # `return` / `break` that are never reached (statically folded branches) do not get a state component:
@@ -1258,11 +1323,10 @@ class FuncTranslator:
                         ctx.fail)
         if has_ret or has_brk:
             save = (self.counter, list(self.pending), list(self.binds), self.ob_count, dict(self.extras))
-            try:
-                self._for_loop(s, env, probe_ctx, lambda e: "_", it, c_it, et, tnames, svars, has_ret, has_brk, False, k, [],
-                               use)
-            except Unsupported:
-                pass
+            # (an Unsupported raised by the body must propagate: swallowing it here once turned a checker whose loop
+            # body left the fragment into `return True`)
+            self._for_loop(s, env, probe_ctx, lambda e: "_", it, c_it, et, tnames, svars, has_ret, has_brk, False, k, [],
+                           use)
             self.counter, self.pending, self.binds, self.ob_count = save[0], save[1], save[2], save[3]
             has_ret, has_brk = has_ret and use["ret"], has_brk and use["brk"]
             if not (svars or has_ret or has_brk):
@@ -1804,6 +1868,8 @@ class World:
             if tr.list_hints != hints:
                 hints = dict(tr.list_hints)
                 continue
+            if tr.unresolved - set(hints):
+                raise Unsupported("an empty list whose element type is never determined")
             d.raises = mode
             d.params, d.ptypes = gparams, pts
             d.ret = Opt(ret) if mode else ret
